@@ -13,8 +13,9 @@ import (
 
 func init() {
 	Register(&Prop{
-		ID:    "C15",
-		Chunk: 40,
+		ID:       "C15",
+		Chunk:    40,
+		NeedsCLI: true,
 		Count: func(c *Ctx) int {
 			if c.Thorough() {
 				return 40000
@@ -210,6 +211,76 @@ func runC15(c *Ctx, idx int, o *Obs) {
 				o.Check(t2.Newick() == t.Newick(), "insert_second_tree_differs", fmt.Sprintf("the same groups applied to a second copy give %s, the first gave %s", Trunc(t2.Newick(), 700), Trunc(t.Newick(), 700)), inp)
 			}
 			o.Ev("InsertIdenticalTips_second_tree", 1)
+			// the command, on a file holding the tree twice, with the groups in a file (one group per line); one group
+			// is made longer than 4096 bytes, the file may lack its final newline
+			if (idx/7)%3 == 0 && c.Gotree != "" && plainNewick(text) {
+				g2 := make([][]string, len(groups))
+				want2 := append([]string{}, want...)
+				model2 := map[string]string{}
+				for nm, tp := range model {
+					model2[nm] = tp
+				}
+				for i, g := range groups {
+					g2[i] = append([]string{}, g...)
+				}
+				layout := gen.Pick(r, "plain", "long-line", "no-final-newline", "long-line")
+				if strings.HasPrefix(layout, "long") && len(g2) > 0 {
+					// the existing tip of the first group gets several hundred more identical tips
+					var existing string
+					for _, nm := range g2[0] {
+						if _, isNew := model[nm]; !isNew {
+							existing = nm
+						}
+					}
+					for j := 0; len(strings.Join(g2[0], ",")) < 6000; j++ {
+						nm := fmt.Sprintf("identical_copy_%04d", j)
+						g2[0] = append(g2[0], nm)
+						model2[nm] = existing
+						want2 = append(want2, nm)
+					}
+				}
+				var lines []string
+				for _, g := range g2 {
+					lines = append(lines, strings.Join(g, ","))
+				}
+				content := strings.Join(lines, "\n") + "\n"
+				if layout == "no-final-newline" {
+					content = strings.TrimSuffix(content, "\n")
+				}
+				gf := tmpFile(c, "c15groups.txt", content)
+				tf := tmpFile(c, "c15trees.nw", text+"\n"+text+"\n")
+				res, _ := runCLIOut(c, r, "", "repopulate", "-i", tf, "-g", gf)
+				o.Ev("cli_repopulate:"+layout, 1)
+				what := "gotree repopulate (groups file layout " + layout + ") on a file holding the tree twice"
+				inp2 := inp + "\ngroups file: " + Trunc(content, 400)
+				if o.Check(res.Exit == 0 && !res.Panic, "cli_repopulate_failed", what+": "+res.brief(), inp2) {
+					outs := strings.Split(strings.TrimSpace(res.Stdout), "\n")
+					if o.Check(len(outs) == 2, "cli_repopulate_count", fmt.Sprintf("%s: %d output trees", what, len(outs)), inp2) {
+						for k, ln := range outs {
+							ct, err := parseNewick(ln)
+							if !o.Check(err == nil, "cli_repopulate_output", fmt.Sprintf("%s, tree %d: %v", what, k, err), inp2) {
+								continue
+							}
+							cm := modelOf(ct)
+							o.Check(sameStrings(sortedCopy(want2), cm.SortedTips()), "cli_insert_tipset", fmt.Sprintf("%s, tree %d: tip set is not old + requested (%d tips, %d expected)", what, k, len(cm.Tips()), len(want2)), inp2)
+							cd := cm.Dist(ref.MLen)
+							if d := distSubset(bd, cd, setOf(tips), totalLen(cm)); d != "" {
+								o.Fail("cli_insert_distance", fmt.Sprintf("%s, tree %d: between pre-existing tips: %s", what, k, d), inp2)
+							}
+							for nm, tp := range model2 {
+								a, b := nm, tp
+								if a > b {
+									a, b = b, a
+								}
+								if v, ok := cd[a+"\x00"+b]; !ok || v != 0 {
+									o.Fail("cli_insert_not_identical", fmt.Sprintf("%s, tree %d: %s sits at distance %v from its model %s", what, k, nm, v, tp), inp2)
+									break
+								}
+							}
+						}
+					}
+				}
+			}
 		}
 	case 3: // single-child nodes
 		R := mk(n, gen.Pick(r, 0, 2, 3), gen.Pick(r, 0.1, 0.3, 0.6), false)
